@@ -43,6 +43,18 @@ CHECKS.update({
          "Every device + no device x {flash, EEPROM, RAM} x usage {cap-1, cap, cap+1} x 4 ways of reaching it (2.1k builds up to 8 MiB): builds iff usage <= capacity, reports the device's sizes and ram_filling = data extent. Every shipped includes/*def.inc whose device is in the table: the four figures it declares (pragma AVRPART MEMORY, falling back to FLASHEND/E2END/SRAM_*) are compared with what is enforced, through `.device` and (when the file assembles) through a build that includes it. Unknown and second .device must fail. Plus 2k/100k random multi-segment programs for sizes.",
          "Shipped files naming a device that is not in the table are counted (skipped), not reported: the statement makes an unknown device an error. RAM start is only observable when RAM size > 0.",
          "DESIGN.md §5 C12"),
+ "C08": ("enumerated chain shapes + proptest conditional trees with poison in unselected branches; reference model and metamorphic blank/delete relations",
+         "Every chain shape with <=3 arms x every truth assignment x optional .else x a nested chain in each position (356 cases) plus 20k (quick) / 500k (thorough) generated trees (1-4 arms, depth 3, conditions on literals, .equ comparisons, .ifdef/.ifndef). Selected bodies carry unique markers (data, messages, .equ/label definitions read back later); unselected bodies carry poison (unparsable text, .error, undefined macros, bad operands, duplicate labels, redefinitions, .device, missing include, unevaluable nested conditionals, .macro, .exit, .define). The image, the messages with their line numbers and the sizes must equal the model's, and the full result must equal that of the program with the unselected lines blanked and deleted.",
+         "Reference conditional semantics in model.rs (first true arm, else .else). Poison never contains an unbalanced conditional keyword; conditions only use what is known while reading (literals, earlier .equ, .define flags).",
+         "DESIGN.md §5 C08"),
+ "C09": ("proptest macro programs; differential tool(with macros) vs tool(hand-expanded by AST substitution) vs reference model",
+         "20k (quick) / 400k (thorough) programs: 1-4 macros with 0-10 typed parameters (register, pointer form, Y/Z+q, whole expression, embedded atom, byte, condition, label number), bodies with instructions/data over @n, .if @n/.else, nested calls passing @n and expressions over @n, .dseg/.eseg excursions (also as last lines), parameterised labels; 1-6 calls in other letter case, before and after the definition, with generated expression arguments. The generator expands calls itself on the AST; build(program with macros) must equal build(hand-expanded program) and the model image. Undefined macro / missing used argument must fail.",
+         "Embedded positions (`@0*2`) only receive atoms, function calls or parenthesised arguments so that textual and value substitution agree (the statement does not choose); no .message inside macro bodies (their position in the message list is unspecified).",
+         "DESIGN.md §5 C09"),
+ "C10": ("proptest define/use histories over all four symbol kinds against the reference binding model, single-fault must-fail variants, alias->register metamorphic relation",
+         "30k (quick) / 500k (thorough) programs of 2-9 symbols (code/data/EEPROM labels, .equ incl. references to other symbols, .set with sequential reassignments, .def/.undef/re-.def) and 4-27 define/use steps in generated order, each occurrence of a name in its own letter case. Image must equal the model's binding; variants with one fault (definition deleted, duplicate label, alias out of scope, .set used before assignment) must fail; replacing alias uses by the register must not change the image.",
+         "Names are unique across symbol kinds (collisions between kinds are not defined by the property); re-.def only after .undef.",
+         "DESIGN.md §5 C10"),
 })
 NOT_YET = {}
 
